@@ -976,8 +976,14 @@ StepTwin(h, e) ==
       h3 == IF e.kind = "fragment"
             THEN Check(h2, a.res = b2.res, p, "operation results differ between the twin runs")
             ELSE h2
-  IN IF PrintT("@STAT " \o ToJson([run |-> h.cfg.name, n |-> [q \in AllProps |-> IF q = p THEN 1 ELSE 0]]))
-     THEN h3 ELSE h3
+      \* a pair whose runs differ in fragmentation AND were cancelled at the same places speaks for both
+      h4 == IF e.kind = "fragcancel"
+            THEN Check(Check(h3, same, "C13", "outbound packet sequence differs between the twin runs"),
+                       a.msgs = b2.msgs, "C13", "delivered inbound messages differ between the twin runs")
+            ELSE h3
+  IN IF PrintT("@STAT " \o ToJson([run |-> h.cfg.name,
+                                  n |-> [q \in AllProps |-> IF q = p \/ (e.kind = "fragcancel" /\ q = "C13") THEN 1 ELSE 0]]))
+     THEN h4 ELSE h4
 
 Step(h0, e) ==
   LET h == [h0 EXCEPT !.v = << >>, !.kf = << >>] IN
